@@ -20,7 +20,10 @@ int __verif_sigpipe_ign;                   /* ghost (C16.sigpipe): SIGPIPE -> SI
 #define EXIT_SPEC_POST(ret) \
     __CPROVER_ensures(G.main_executed ==> (ret) == SPEC_EXIT(__verif_vm_r, __verif_top_tag, __verif_top_i64)) \
     __CPROVER_ensures(!G.main_executed ==> (ret) == 1)   /* not run at all: load / verification / __init__ error */ \
-    __CPROVER_ensures(G.main_executed <= 1)
+    __CPROVER_ensures(G.main_executed <= 1) \
+    /* C10.init.once: the global initialisers (__init__) run once, as under the reference launcher: vm_execute runs them \
+       itself (assumed from vm.c vm_execute; not under contract here), so a launcher must not call __init__ on its own */ \
+    __CPROVER_ensures(G.init_runs <= 1)
 
 #ifdef EXIT_UNIT_VM
 #define main vm_main
@@ -108,6 +111,6 @@ void h_wrapper_main(void)
     int r = wrapper_main(argc, argv);
     VERIF_COVER(G.main_executed && __verif_vm_r == 0 && __verif_top_tag == 0x01 && __verif_top_i64 == 7 && r == 7);
     VERIF_COVER(G.main_executed && __verif_vm_r != 0 && r == 1);
-    VERIF_COVER(!G.main_executed && G.init_failed);
+    VERIF_COVER(!G.main_executed && G.load_failed);     /* embedded module does not deserialise */
 }
 #endif
